@@ -92,7 +92,15 @@ where
             .map(|((r0, r1), _)| u0 * (r1 + u1) + r0 * u1)
             .reduce(V::min)
             .unwrap();
-        let b = MArrD2::<D0, D1, V>::from_iter(p_iter.zip(&a).map(|(p, &a)| p - a * u));
+        // residue of a joint mass that is exactly 0 (or b0*b1 of the minimising cell) clamped at zero, as in the unlabelled products
+        let b = MArrD2::<D0, D1, V>::from_iter(p_iter.zip(&a).map(|(p, &a)| {
+            let b = p - a * u;
+            if b < V::zero() {
+                V::zero()
+            } else {
+                b
+            }
+        }));
         Opinion::normalized(b, u, a)
     }
 }
@@ -121,7 +129,15 @@ where
             .map(|((r0, r1, r2), _)| u0 * (r1 + u1) * (r2 + u2) + r0 * (u1 * (r2 + u2) + r1 * u2))
             .reduce(V::min)
             .unwrap();
-        let b = MArrD3::<D0, D1, D2, _>::from_iter(p_iter.zip(&a).map(|(p, &a)| p - a * u));
+        // residue of a joint mass that is exactly 0 (or b0*b1 of the minimising cell) clamped at zero, as in the unlabelled products
+        let b = MArrD3::<D0, D1, D2, _>::from_iter(p_iter.zip(&a).map(|(p, &a)| {
+            let b = p - a * u;
+            if b < V::zero() {
+                V::zero()
+            } else {
+                b
+            }
+        }));
         Opinion::normalized(b, u, a)
     }
 }
